@@ -545,6 +545,12 @@ func (rt *runtime) convertCallParameter(v Value, t reflect.Type) (reflect.Value,
 		if o := v.object(); o != nil {
 			if lv := o.get(propertyLength); lv.IsNumber() {
 				l := lv.number().int64
+				if l < 0 || (l > 1<<20 && int64(len(o.property)) < l/2) {
+					// A Go slice is dense: an array-like that claims a negative length, or
+					// millions of elements it does not hold, cannot be converted
+					// (reflect.MakeSlice would panic, or ask for gigabytes).
+					return reflect.Zero(t), fmt.Errorf("cannot convert a sparse array-like of length %d to %s", l, t)
+				}
 
 				s := reflect.MakeSlice(t, int(l), int(l))
 
